@@ -5,6 +5,7 @@ mod c05;
 mod c06;
 mod c10;
 mod c11;
+mod c13;
 mod worker;
 mod c14;
 mod hookutil;
@@ -111,6 +112,7 @@ fn real_main(args: Vec<String>) -> i32 {
                 "C07" => c06::run(&ctx, true),
                 "C10" => c10::run(&ctx),
                 "C11" => c11::run(&ctx),
+                "C13" => c13::run(&ctx),
                 "C14" => c14::run(&ctx),
                 _ => Err(format!("no check for {}", prop)),
             };
